@@ -217,6 +217,7 @@ RACE_CFGS = [
     {'ck': 'int', 'cv': 2, 'pk': 'int', 'pv': 2, 'ws': 0, 'we': 0, 'cm': 'none'},
     {'ck': 'absent', 'cv': 0, 'pk': 'absent', 'pv': 0, 'ws': 0, 'we': 0, 'cm': 'expr'},
     {'ck': 'int', 'cv': -1, 'pk': 'int', 'pv': 1, 'ws': 0, 'we': 0, 'cm': 'none'},
+    {'ck': 'int', 'cv': 2, 'pk': 'int', 'pv': 0, 'ws': 0, 'we': 0, 'cm': 'none'},      # both concurrent hits are allowed
 ]
 
 
@@ -252,7 +253,7 @@ def run(c):
     # concurrent schedules
     traces, meta = gate_schedules(c, RACE_CFGS, wd, line_level=False, max_preemptions=8, max_runs=None)
     validate(c, traces, meta, 'gate-schedule')
-    traces, meta = gate_schedules(c, [RACE_CFGS[0], RACE_CFGS[3]] if quick else RACE_CFGS, wd, line_level=True,
+    traces, meta = gate_schedules(c, [RACE_CFGS[0], RACE_CFGS[3], RACE_CFGS[4]] if quick else RACE_CFGS, wd, line_level=True,
                                   max_preemptions=1 if quick else 2, max_runs=150 if quick else 3000)
     validate(c, traces, meta, 'line-schedule')
     if not quick:
